@@ -282,10 +282,10 @@ extern "C" int engineexport_initialize_grid (
     if     (CompareStr(init_state_processing, "Poisson"))
       {
       std::mt19937 rng(seed);
-      mesh_x.resize(n_meshes*n_species);
+      mesh_x = SpeciesFirstToMeshFirstArray(MkVec<double, double>(mesh_state, n_meshes*n_species), n_species, n_meshes);
       for(size_t i=0; i<mesh_x.size(); i++)
         {
-        mesh_x[i] = static_cast<double>(std::poisson_distribution<int>(mesh_state[i])(rng));
+        mesh_x[i] = static_cast<double>(std::poisson_distribution<int>(mesh_x[i])(rng));
         }
       }
     else if(CompareStr(init_state_processing, "floor"))
@@ -413,10 +413,10 @@ extern "C" int engineexport_initialize_graph (
     if     (CompareStr(init_state_processing, "Poisson"))
       {
       std::mt19937 rng(seed);
-      mesh_x.resize(n_meshes*n_species);
+      mesh_x = SpeciesFirstToMeshFirstArray(MkVec<double, double>(mesh_state, n_meshes*n_species), n_species, n_meshes);
       for(size_t i=0; i<mesh_x.size(); i++)
         {
-        mesh_x[i] = static_cast<double>(std::poisson_distribution<int>(mesh_state[i])(rng));
+        mesh_x[i] = static_cast<double>(std::poisson_distribution<int>(mesh_x[i])(rng));
         }
       }
     else if(CompareStr(init_state_processing, "floor"))
